@@ -149,7 +149,7 @@ func c11NewEnv() *c11Env {
 	mcw := ms.MultiCacheWrap()
 	e.vmk.Initialize(log.NewNoopLogger(), mcw)
 	stdlibCtx := e.vmk.MakeGnoTransactionStore(ctx.WithMultiStore(mcw))
-	e.vmk.LoadStdlibCached(stdlibCtx, filepath.Join(gnoenv.RootDir(), "gnovm", "stdlibs"))
+	e.vmk.LoadStdlib(stdlibCtx, filepath.Join(gnoenv.RootDir(), "gnovm", "stdlibs")) // the node's own cold-start path (one load per process)
 	e.vmk.CommitGnoTransactionStore(stdlibCtx)
 	mcw.MultiWrite()
 	e.vmk.PopulateStdlibCache()
